@@ -1541,6 +1541,9 @@ func (se *SessionExecutor) handleSavepoint(stmt *ast.SavepointStmt) (err error) 
 		for _, pc := range se.txConns {
 			_, err = pc.Execute("release savepoint "+stmt.Savepoint, 0)
 		}
+		for _, pc := range se.ksConns {
+			_, err = pc.Execute("release savepoint "+stmt.Savepoint, 0)
+		}
 		if err == nil && se.isInTransaction() {
 			if index := util.ArrayFindIndex(se.savepoints, stmt.Savepoint); index > -1 {
 				se.savepoints = se.savepoints[0 : index+1]
@@ -1548,6 +1551,9 @@ func (se *SessionExecutor) handleSavepoint(stmt *ast.SavepointStmt) (err error) 
 		}
 	} else {
 		for _, pc := range se.txConns {
+			_, err = pc.Execute("savepoint "+stmt.Savepoint, 0)
+		}
+		for _, pc := range se.ksConns {
 			_, err = pc.Execute("savepoint "+stmt.Savepoint, 0)
 		}
 		if err == nil && se.isInTransaction() {
